@@ -129,7 +129,7 @@ func (r *dlRoles) isArm(in ssa.Instruction) bool {
 	}
 	if refs := c.Referrers(); refs != nil {
 		for _, rr := range *refs {
-			if st, ok := rr.(*ssa.Store); ok && st.Val == ssa.Value(c) && isFieldStore(st, r.T, r.timer) {
+			if st, ok := rr.(*ssa.Store); ok && sameOrigin(st.Val, ssa.Value(c)) && isFieldStore(st, r.T, r.timer) {
 				return true
 			}
 		}
